@@ -509,13 +509,40 @@ fn gen_c12(seed: u64, tier: Tier) -> Scenario {
         sc.config.mask = None;
         sanitize(&mut sc.config);
     }
+    if sc.config.kind.is_async() && sc.config.max_rel > 1.0 && rng.chance(0.12) {
+        // chunk sizes for which the frame count at the *lowest* (or highest) ratio is an exact integer: size formulas
+        // evaluated at the bound then sit on a rounding edge
+        let m = sc.config.max_rel;
+        let r = sc.config.ratio;
+        for _ in 0..300 {
+            let c = rng.usize_in(1, 4096);
+            let lo = c as f64 * m / r;
+            let hi = c as f64 * r * m;
+            if lo.fract() == 0.0 || hi.fract() == 0.0 || (c as f64 / (r / m)).fract() == 0.0 {
+                sc.config.chunk = c;
+                sanitize(&mut sc.config);
+                break;
+            }
+        }
+    }
     sc.signal = gen_signal(&mut rng);
     let n = ops_budget(&sc.config, tier_budget(tier), 5, q(tier, 30, 60), &mut rng);
     let m = OpMix::swarm(&mut rng, n);
     let (p, mut ops, t) = gen_history(&mut rng, &sc.config, &m);
     let points = rng.usize_in(1, 4);
-    for _ in 0..points {
-        let at = rng.usize_in(0, ops.len());
+    for pt in 0..points {
+        // the first burst often hits the instance fresh, or right after a reset
+        let at = if pt == 0 && rng.chance(0.35) {
+            if rng.chance(0.5) || ops.is_empty() {
+                0
+            } else {
+                let k = rng.usize_in(0, ops.len());
+                ops.insert(k, Op::Reset);
+                k + 1
+            }
+        } else {
+            rng.usize_in(0, ops.len())
+        };
         // enumerate every class at this point (rejected ones change nothing; accepted ones are valid changes)
         let mut burst: Vec<Op> = Vec::new();
         let classes: Vec<CtlVal> = vec![
